@@ -840,12 +840,14 @@ func (e *CoreExtension) functionDump(args ...interface{}) (interface{}, error) {
 		if i > 0 {
 			result.WriteString(", ")
 		}
-		if containsItself(reflect.ValueOf(arg), 0, nil) {
-			// fmt never finishes on a value that contains itself
-			result.WriteString(formatWithoutAddresses(arg))
+		// fmt never finishes on a value that contains itself, and prints the addresses
+		// of the pointers, channels and functions inside a value
+		plain, printed := withoutAddresses(arg)
+		if printed {
+			result.WriteString(plain.(string))
 			continue
 		}
-		result.WriteString(fmt.Sprintf("%#v", arg))
+		result.WriteString(fmt.Sprintf("%#v", plain))
 	}
 
 	return result.String(), nil
@@ -2507,20 +2509,13 @@ func (e *CoreExtension) filterFormat(value interface{}, args ...interface{}) (in
 		return formatString, nil
 	}
 
-	// fmt never finishes on a value that contains itself: hand it the printed form
+	// fmt never finishes on a value that contains itself, and prints the addresses of
+	// the pointers inside a value: hand it the pointed-to value or the printed form
+	safe := make([]interface{}, len(args))
 	for i, arg := range args {
-		if containsItself(reflect.ValueOf(arg), 0, nil) {
-			safe := make([]interface{}, len(args))
-			copy(safe, args)
-			for j := i; j < len(safe); j++ {
-				if containsItself(reflect.ValueOf(safe[j]), 0, nil) {
-					safe[j] = formatWithoutAddresses(safe[j])
-				}
-			}
-			args = safe
-			break
-		}
+		safe[i], _ = withoutAddresses(arg)
 	}
+	args = safe
 
 	// Apply formatting
 	return fmt.Sprintf(formatString, args...), nil
